@@ -298,7 +298,19 @@ type env struct {
 	goroot, gopath string
 }
 
+var goEnvCache sync.Map
+
 func goEnv(extra []string) env {
+	ck := strings.Join(extra, "\x00")
+	if v, ok := goEnvCache.Load(ck); ok {
+		return v.(env)
+	}
+	e := goEnvUncached(extra)
+	goEnvCache.Store(ck, e)
+	return e
+}
+
+func goEnvUncached(extra []string) env {
 	r := core.Exec("/", core.BaseEnv(extra...), time.Minute, "", "go", "env", "GOROOT", "GOPATH")
 	ls := strings.Split(strings.TrimSpace(r.Stdout), "\n")
 	e := env{}
@@ -589,8 +601,8 @@ func checkProgram(c *core.Ctx, idx int, p *GenProgram, sink *failSink, nUncaught
 		}
 
 		// (iv) right line
-		mapped := c.RunNode(outJS, core.NodeOpt{Args: []string{"--enable-source-maps"}})
-		raw := c.RunNode(outJS, core.NodeOpt{})
+		mapped := c.RunNode(outJS, core.NodeOpt{Args: []string{"--enable-source-maps"}, Timeout: 5 * time.Minute})
+		raw := c.RunNode(outJS, core.NodeOpt{Timeout: 5 * time.Minute})
 		if mapped.TimedOut || raw.TimedOut {
 			c.Inconclusive("node-timeout")
 			continue
@@ -658,8 +670,8 @@ type evalCtx struct {
 }
 
 func (ev *evalCtx) uncaught(ord string, pr *Probe, envKV string) {
-	mapped := ev.c.RunNode(ev.outJS, core.NodeOpt{Args: []string{"--enable-source-maps"}, Env: []string{envKV}})
-	raw := ev.c.RunNode(ev.outJS, core.NodeOpt{Env: []string{envKV}})
+	mapped := ev.c.RunNode(ev.outJS, core.NodeOpt{Args: []string{"--enable-source-maps"}, Env: []string{envKV}, Timeout: 3 * time.Minute})
+	raw := ev.c.RunNode(ev.outJS, core.NodeOpt{Env: []string{envKV}, Timeout: 3 * time.Minute})
 	if mapped.TimedOut || raw.TimedOut {
 		ev.c.Inconclusive("node-timeout")
 		return
